@@ -168,6 +168,21 @@ def fam_rules_distinct():
     return [Term(u * v, "cell", 3, _deg(1)), Term(f * u * v, "cell", 3, _deg(4)), Term(2 * u * v, "cell", 3, _deg(2))]
 
 
+def fam_interleaved():
+    """FormIR id lists that are NOT already sorted with different kernels involved (argsort is not the identity)"""
+    m, V = corpus.space("triangle", "P", 1)
+    v = ufl.TestFunction(V)
+    f = ufl.Coefficient(V)
+    return [
+        Term(2 * v, "cell", (0, 3)),
+        Term(3 * f * v, "cell", 1),
+        Term(5 * f * f * v, "cell", (2, 0)),
+        Term(7 * v, "cell", None),
+        Term(11 * v, "exterior_facet", (4, 1)),
+        Term(13 * f * v, "exterior_facet", (2, 3)),
+    ]
+
+
 def fam_minus_one():
     m, V = corpus.space("triangle", "P", 1)
     u, v = ufl.TrialFunction(V), ufl.TestFunction(V)
@@ -192,8 +207,38 @@ def fam_prism_ok():
 FAMILIES = [
     ("tri_many", fam_tri_many), ("tet_rank1", fam_tet_rank1), ("interval", fam_interval), ("functional", fam_functional),
     ("dropped", fam_dropped), ("rules_shared", fam_rules_shared), ("rules_distinct", fam_rules_distinct),
-    ("minus_one", fam_minus_one), ("prism_ds", fam_prism_ds), ("prism_ok", fam_prism_ok),
+    ("interleaved", fam_interleaved), ("minus_one", fam_minus_one), ("prism_ds", fam_prism_ds), ("prism_ok", fam_prism_ok),
 ]
+
+
+def random_family(seed):
+    """seeded family: random cell/rank, 3-8 terms over random types with random id sets (default quadrature)"""
+    def build():
+        rng = random.Random(seed)
+        cell = rng.choice(["triangle", "tetrahedron", "quadrilateral", "interval"])
+        m, V = corpus.space(cell, "Q" if cell == "quadrilateral" else "P", rng.choice([1, 2]))
+        u, v = ufl.TrialFunction(V), ufl.TestFunction(V)
+        f, g = ufl.Coefficient(V), ufl.Coefficient(V)
+        k = ufl.Constant(m)
+        rank = rng.choice([1, 2])
+        types = ["cell", "exterior_facet", "interior_facet"] + (["vertex"] if cell in ("triangle", "interval") else []) \
+            + (["ridge"] if cell == "tetrahedron" else [])
+        terms = []
+        for j in range(rng.randrange(3, 9)):
+            t = rng.choice(types)
+            R = (lambda e: e("+")) if t == "interior_facet" else (lambda e: e)
+            e = (2 * j + 3) * R(rng.choice([1.0, f, g, k, f * g]) * v)
+            if rank == 2:
+                e = e * (u("-") if t == "interior_facet" else u)
+            ids = rng.choice([None, None, 0, 1, 2, 3, (0, 1), (1, 3), (2, 0), (3, 2, 1)])
+            terms.append(Term(e, t, ids))
+        return terms
+    return build
+
+
+def families(chk):
+    n = 2 if chk.tier == "quick" else 12
+    return FAMILIES + [(f"random_{chk.seed}_{i}", random_family(chk.seed * 101 + i)) for i in range(n)]
 
 
 def multi_form(terms):
@@ -274,13 +319,19 @@ def _check_form_ir(chk, d, name, fd, fi, fir, iirs, state):
                       {"form": name, "ufl": str(fd.original_form)[:400], "subdomain_ids": {t: [r[0] for r in g] for t, g in zip(TYPES, groups) if g},
                        "domains": {t: [r[2] for r in g] for t, g in zip(TYPES, groups) if g},
                        "offsets": [int(o) for o in idata.offsets], "expected": want, "kernels_emitted": emitted})
-    # ---- oracle 2: ids sorted inside each type, triples only permuted
+    # ---- oracle 2: ids sorted inside each type, (id, name, domains) triples only permuted inside the type
     pos = 0
     for t, g in zip(TYPES, groups):
         seg = [int(i) for i in idata.ids[pos:pos + len(g)]]
         if seg != sorted(seg):
             _viol(chk, f"ids-unsorted:{name}:{t}", "ids not non-decreasing inside a type group", {"form": name, "type": t, "ids": seg})
+        rows = sorted(zip(seg, idata.names[pos:pos + len(g)], [_dom_tags(x) for x in idata.domains[pos:pos + len(g)]]))
+        if rows != sorted(g):
+            _viol(chk, f"triples-changed:{name}:{t}", "integral_data changed the (id, name, domains) triples of a type",
+                  {"form": name, "type": t, "formir": g, "integral_data": rows})
         pos += len(g)
+    if any([r[0] for r in g] != sorted(r[0] for r in g) for g in groups):
+        chk.hist["formir-real:argsort-not-identity"] = chk.hist.get("formir-real:argsort-not-identity", 0) + 1
     # ---- oracle 3: kernels listed under (type, id) = integrals whose tuple contains id; -1 only for 'otherwise'
     for t, g in zip(TYPES, groups):
         listed = {}
@@ -314,8 +365,8 @@ def correspond_real(chk, d, state):
     entries = layout_checks.corpus_forms(chk, 20 if quick else 200)
     entries += [(n, b, {}) for n, b in layout_checks.synthetic_forms(chk.seed + 1, 30 if quick else 300)]
     # the dispatch families: each alone, and all non-prism ones together in ONE module (several forms per module)
-    fams = [(n, (lambda f=f: [multi_form(f())]), {}) for n, f in FAMILIES]
-    fams.append(("all_families_one_module", (lambda: [multi_form(f()) for n, f in FAMILIES]), {}))
+    fams = [(n, (lambda f=f: [multi_form(f())]), {}) for n, f in families(chk)]
+    fams.append(("all_families_one_module", (lambda: [multi_form(f()) for n, f in families(chk)]), {}))
     n = 0
     for name, build, options in entries + fams:
         r = layout_checks.compute_entry(chk, name, build, options)
@@ -575,7 +626,7 @@ def _asize(form, width):
 
 def readback_and_sum(chk, d, state):
     rng = np.random.default_rng(chk.seed + 12345)
-    fams = [(n, f()) for n, f in FAMILIES]
+    fams = [(n, f()) for n, f in families(chk)]
     forms, index = [], {}
     for n, terms in fams:
         index[(n, "multi")] = len(forms)
